@@ -122,7 +122,7 @@ pub fn replay(args: &[String]) {
         if nblocks_cmd == 0 {
             return out;
         }
-        let lines: Vec<String> = v["lines"].as_array().unwrap().iter().map(|l| l.as_str().unwrap().replace("@U@", "aü")).collect();
+        let lines: Vec<String> = v["lines"].as_array().unwrap().iter().map(|l| l.as_str().unwrap().replace("@U@", "aü").replace("@P@", "Ü")).collect();
         let text = lines.join("\n") + "\n";
         let tests = match guarded(|| md_parser().parse(&text)) {
             Ok(Ok((_c, t))) if t.len() == nblocks_cmd => t,
